@@ -725,6 +725,18 @@ static void register_type_entries()
    ENTRY("type_factory::get_ptr_to_member(Type,Type)", auto& c = r.T(); auto& t = r.T(); r.done(L.get_ptr_to_member(c, t));)
    ENTRY("type_factory::get_reference(Type)", auto& t = r.T(); r.done(L.get_reference(t));)
    ENTRY("type_factory::get_rvalue_reference(Type)", auto& t = r.T(); r.done(L.get_rvalue_reference(t));)
+   // a sequence requested right after one of its proper prefixes, and right after one of its extensions (the tables are ordered
+   // lexicographically: a neighbour that shares a prefix must not be answered instead)
+#define SEQ_NEIGHBOUR(FN, KEY) \
+   ENTRY("type_factory::" #FN "(Warehouse<Type>)#after-prefix", auto& w = r.WH(); \
+         r.c.warehouses.emplace_back(); auto& pre = r.c.warehouses.back(); \
+         for (std::size_t i = 0; i + 1 < w.rep().size(); ++i) pre.push_back(w.rep().get(i)); \
+         r.c.warehouses.emplace_back(); (void) L.FN(r.c.warehouses.back()); (void) L.FN(pre); r.done(L.FN(w));) \
+   ENTRY("type_factory::" #FN "(Warehouse<Type>)#after-extension", auto& w = r.WH(); \
+         r.c.warehouses.emplace_back(); auto& ext = r.c.warehouses.back(); \
+         for (std::size_t i = 0; i < w.rep().size(); ++i) ext.push_back(w.rep().get(i)); \
+         ext.push_back(*r.c.types[(r.inst + 5) % r.c.types.size()]); (void) L.FN(ext); r.done(L.FN(w));)
+   SEQ_NEIGHBOUR(get_product, "Product") SEQ_NEIGHBOUR(get_sum, "Sum")
    ENTRY("type_factory::get_sum(Sequence<Type>)", auto& s = r.TS(); r.done(L.get_sum(s));)
    ENTRY("type_factory::get_sum(Warehouse<Type>)", auto& w = r.WH(); r.done(L.get_sum(w));)
    ENTRY("type_factory::get_forall(Product,Type)", auto& p = r.P(); auto& t = r.T(); r.done(L.get_forall(p, t));)
